@@ -721,10 +721,27 @@ def main(run):
         "files_written_by_shoot": written,
         "cases_by_subcommand": by_cmd, "cases_by_mode": by_tag,
         "cases_by_input_class": {"legend": "0 inside the theorems' guard; 2 K_star_no_generate_line; 3 K_star_sep_file; "
-                                 "8 command line rejected by flag parsing; 9 outside the grammar", **by_class},
+                                 "7 map -to (not modelled, never generated); 8 command line rejected by flag parsing; "
+                                 "9 outside the grammar (duplicate package-level type names after a pre-step)", **by_class},
         "exit_codes": exits, "diagnostic_classes": diags,
         "declaration_kinds_in_distinct_cases": kinds,
         "dir_argument_cases": sum(1 for k in cases if k.from_parent),
+        "input_class_counters": {
+            "-file names an existing .go file that is not a file of the package (_test.go, build-constrained, _x.go, sub/a.go)":
+                sum(1 for k in cases if any(a.startswith("-file=") and a[6:] in [n for n, _ in (k.pkg0 or k.pkg).others] for a in k.args)),
+            "packages with such other files": sum(1 for k in cases if (k.pkg0 or k.pkg).others),
+            "//go:generate line inside a block comment": sum(1 for k in cases for f in k.pkg.files for d in f.decls
+                                                            if d[0] == "comment" and d[1].startswith("/*")),
+            "package with a declaration-free file": sum(1 for k in cases if "declfree" in k.pkg.features),
+            "renamed import of the shoot package in a file with a RestClient interface":
+                sum(1 for k in cases if any(f.shoot_alias != "shoot" and any(d[0] == "type" and any(t.rhs == "iface_rest" for t in d[1])
+                                                                               for d in f.decls) for f in k.pkg.files)),
+            "const blocks with a blank (_) constant": sum(1 for k in cases for f in k.pkg.files for d in f.decls
+                                                         if d[0] == "const" and "_" in d[2]),
+            "untyped const specs `const N = T(1)`": sum(1 for k in cases for f in k.pkg.files for d in f.decls if d[0] == "rawconst"),
+            "package already holds shoot output (rest run first)": sum(1 for k in cases if k.pre),
+            "map -to (not modelled, must be 0)": sum(1 for c_ in classes if c_ == 7),
+        },
         "findings_measured": measured,
         "repaired_class_cases_tolerated": tolerated,
         "mismatches_not_reproduced_when_run_alone": min(first_pass, 40) - len(mism),
@@ -743,8 +760,14 @@ def main(run):
             "types a written file holds is observed through the marker methods ShootNew/ShootEnum/ShootRest/ShootMap",
             "the order of the Go map iterations (TypesInfo.Defs in getGoFile, srcMap in main) is an arbitrary "
             "permutation oracle in the theorems; the correspondence compares file sets and message lists as multisets",
-            "the existence checks of ParseCommonFlags are modelled on the skeleton (the .go files of the directory "
-            "are the files of the package); the [dir] argument is assumed to exist",
+            "the existence check of ParseCommonFlags on -file is modelled on the skeleton: the file exists iff it is a file "
+            "of the package or one of the listed other .go files below the directory (p_others: _test.go, excluded by a build "
+            "constraint or a GOOS suffix, starting with `_`, in a sub-directory), which packages.Load does not make part "
+            "of the package; the [dir] argument is assumed to exist",
+            "`shoot map -to=...` (destination type renaming) and a -path that is not an existing package are NOT modelled "
+            "(shoot_cli returns CNotModelled for -to; the stream always passes -path=../dest and never -to)",
+            "constants of a type are the typed const specs `N T = ...` / carried-down names (what enumer.makeStr reads), "
+            "blank names excluded; `const N = T(1)` is a constant of T for Go but not for shoot, nor for the model",
         ],
     }
     return run.finish(cov, assumptions=[
@@ -752,7 +775,12 @@ def main(run):
         "(unexported ones included: the code names their file with a `_`); enum = defined (non-alias) integer types "
         "with at least one typed constant; rest = interfaces embedding shoot.RestClient; map = structs with a "
         "same-named struct in the destination package (-file/-type=* additionally require an exported name)",
-        "all-in-one output of -type=* is named after the file holding the //go:generate line of the command",
+        "all-in-one output of -type=* is named after the first file (package order) one of whose comments has a line "
+        "`//go:generate <anything><command line>` (C16_find_cmd_line_iff; // comments and lines of block comments)",
+        "-file=f.go for an existing f.go that is not a file of the package (x_test.go, build-constraint excluded, sub/a.go): "
+        "no declaration of f.go belongs to the package, so the reading is `nothing is generated, exit 0` "
+        "(C16_other_file_generates_nothing); the binary prints the `nothing generated` warning",
+        "C16_message_lists_every_file holds by the shape of main's loop as modelled; the correspondence run carries the sentence",
         "open findings (classes kept out of the guard of the theorems, compared against the literal model, "
         "witness replayed on every run): K_star_no_generate_line, K_star_sep_file; repaired in /repo and now inside "
         "the theorems and the comparison stream: K_enum_missing_silent, K_local_type_listed, K_lower_collision "
